@@ -253,6 +253,41 @@ theorem quickselect_no_panic (cmp : Cmp3 ε α) (arr : List α) (target : Nat) (
     Select.quickselect cmp arr target ≠ .panic :=
   Select.quickselect_ok cmp arr target ht
 
+/-! ### `TryHeap`: heap property, `n_largest` / `n_smallest`
+
+`Heap.TotalLe r`: `is_le` is total and transitive (a total preorder).  `Heap.HeapInv r d`: every entry of
+the array is `is_le` its parent's (index `(i-1)/2`).  `Select.PureSat Q res`: the routine answers `ok`
+(no failure, no out-of-bounds panic, fuel suffices) with a payload satisfying `Q`. -/
+
+/-- `push` keeps the heap property (and, by `heap_push_conserves`, the multiset plus the new element) -/
+theorem heap_push_preserves {r : α → α → Bool} (le : Cmp ε α) (hp : Pure le r) (ht : Heap.TotalLe r)
+    (data : List α) (item : α) (n : Nat) (hd : Heap.HeapInv r data) :
+    Select.PureSat (fun d : List α => Heap.HeapInv r d) (Heap.push le data item n) :=
+  Heap.push_heap hp ht data item n hd
+
+/-- `pop` on a heap: the empty heap gives `none`; otherwise the returned element together with the rest is
+the old multiset, the rest is a heap again, and the returned element is one that no entry exceeds -/
+theorem heap_pop_preserves {r : α → α → Bool} (le : Cmp ε α) (hp : Pure le r) (ht : Heap.TotalLe r)
+    (data : List α) (n : Nat) (hd : Heap.HeapInv r data) :
+    Select.PureSat (Heap.PopSpec r data) (Heap.pop le data n) :=
+  Heap.pop_spec hp ht data n hd
+
+/-- **`n_largest` / `n_smallest`** (push everything, pop `n` times): the answer has `min n len` entries,
+together with some `rest` it is a permutation of the input, every entry is `is_le`-not-exceeded by the
+later entries and by everything in `rest` — i.e. it is the first `n` of the input sorted downwards w.r.t.
+`is_le`, up to ties.  (`is_le = cmp ≤ 0` gives the `n` largest in descending order, `is_le = cmp ≥ 0` the
+`n` smallest in ascending order.) -/
+theorem heap_nlargest_spec {r : α → α → Bool} (le : Cmp ε α) (hp : Pure le r) (ht : Heap.TotalLe r)
+    (n : Nat) (xs : List α) :
+    Select.PureSat (Heap.NLargestSpec r xs n) (Heap.nLargest le n xs) :=
+  Heap.nLargest_spec hp ht n xs
+
+/-- the hypotheses are satisfiable (`≤` on the integers), and the statement is not vacuous -/
+example : Heap.TotalLe (fun a b : Int => decide (a ≤ b)) :=
+  ⟨fun a b => by simp; omega, fun a b c => by simp; omega⟩
+example : Heap.nLargest (fun _ (a b : Int) => (.ok (decide (a ≤ b)) : Except String Bool)) 2 [3, 1, 4, 1, 5]
+    = .ok [5, 4] 9 := by decide
+
 /-! ### `quickselect` / `nth_smallest` / `nth_largest` / `median`: the rank asked for
 
 `Select.Pure3 cmp c3`: the comparator never fails and computes the three-way result `c3`.
